@@ -60,14 +60,14 @@ var c05Tables = map[string]map[string]string{
 }
 
 type c05Invocation struct {
-	cmd        int
-	raw        bool
-	negAuth    bool
-	negEnc     bool
-	streamEnc  bool
-	user       string
-	viaAuth    bool
-	sid        string
+	cmd       int
+	raw       bool
+	negAuth   bool
+	negEnc    bool
+	streamEnc bool
+	user      string
+	viaAuth   bool
+	sid       string
 }
 
 type c05World struct {
@@ -87,17 +87,27 @@ func (w *c05World) viol(key, f string, a ...any) {
 	w.res.Violate("C05/"+key, "history [%s]: "+f, append([]any{w.hist}, a...)...)
 }
 
-func newC05World(res *vlib.Result, hist string) *c05World {
+// layout "percmd": permissive default, the per-command hook answers for every
+// registered command. layout "nilhook": the default is the strictest policy
+// (command C's) and the hook returns nil for C ("use the default"), so C's
+// policy reaches the server only through the documented fallback.
+func newC05World(res *vlib.Result, hist, layout string) *c05World {
 	w := &c05World{res: res, hist: hist, caches: map[string]*security.SessionCache{}, lastSid: map[string]string{}, truthAuth: map[string]bool{}, truthUser: map[string]string{}}
 	mk := func(p c05Policy) *security.SecurityConfig {
 		c := baseCfg(p.auth, p.enc, []security.AuthMethod{mTOK, mCTB}, []security.CryptoMethod{security.CryptoAES}, true)
 		return c
 	}
 	def := mk(c05Pol[cmdA])
+	if layout == "nilhook" {
+		def = mk(c05Pol[cmdC])
+	}
 	w.srv = server.New(def)
 	w.srv.SecurityConfigForCommand = func(c int) *security.SecurityConfig {
 		p, ok := c05Pol[c]
 		if !ok || !p.reg || p.raw {
+			return nil
+		}
+		if layout == "nilhook" && c == cmdC {
 			return nil
 		}
 		cfg := mk(p)
@@ -522,14 +532,14 @@ func c05Alphabet(tier string) []c05Event {
 }
 
 // c05Run replays one history on a fresh world.
-func c05Run(hist []c05Event) *vlib.Result {
+func c05Run(hist []c05Event, layout string) *vlib.Result {
 	res := &vlib.Result{Evals: 1}
 	security.ClearSessionCache()
 	names := make([]string, len(hist))
 	for i, e := range hist {
 		names[i] = e.String()
 	}
-	w := newC05World(res, strings.Join(names, " "))
+	w := newC05World(res, layout+": "+strings.Join(names, " "), layout)
 	var cur *c05Conn
 	flush := func() {
 		if cur != nil {
@@ -567,7 +577,7 @@ func c05Run(hist []c05Event) *vlib.Result {
 func C05Plan() *vlib.Plan {
 	p := &vlib.Plan{
 		Property: "C05", Level: "model_checking", Procs: 16,
-		Rule: "Bounded history enumeration on a real server.Server with commands A (auth/enc OPTIONAL, READ), B (auth REQUIRED, WRITE), C (auth+enc REQUIRED, DAEMON), D (raw), E (unregistered), per-command policies and a switchable authorizer table. Events: open a connection as {alice, bob (TOKEN), unauthenticated, plaintext, scripted key-skipping CLAIMTOBE client} with first command x; follow-on command x on the kept-alive connection; reconnect and explicitly resume the client's last session with command x; switch the authorizer table; raw send of x. All histories <= depth (follow requires an open connection, resume requires a prior session). A monitor inside every handler records each dispatch; oracle: registered + right path (raw vs authenticated), authentication really ran on the wire for that session when the command requires it, stream really encrypted and canaries invisible when it requires encryption, identity currently authorized when a table is set; refused/unknown commands close the connection and nothing further runs. Non-trivial = history with >= 1 dispatch decision.",
+		Rule:   "Bounded history enumeration on a real server.Server with commands A (auth/enc OPTIONAL, READ), B (auth REQUIRED, WRITE), C (auth+enc REQUIRED, DAEMON), D (raw), E (unregistered), per-command policies and a switchable authorizer table, in two layouts (permissive default + a per-command answer for every command; strictest default + a per-command hook that returns nil for C so that C's policy arrives through the fallback - run for every history that mentions C). Events: open a connection as {alice, bob (TOKEN), unauthenticated, plaintext, scripted key-skipping CLAIMTOBE client} with first command x; follow-on command x on the kept-alive connection; reconnect and explicitly resume the client's last session with command x; switch the authorizer table; raw send of x. All histories <= depth (follow requires an open connection, resume requires a prior session). A monitor inside every handler records each dispatch; oracle: registered + right path (raw vs authenticated), authentication really ran on the wire for that session when the command requires it, stream really encrypted and canaries invisible when it requires encryption, identity currently authorized when a table is set; refused/unknown commands close the connection and nothing further runs. Non-trivial = history with >= 1 dispatch decision.",
 		Assume: []string{"16 worker processes, each with its own process-global server cache", "ground truth for 'authenticated' = an authentication exchange was seen on the wire when the session was created"},
 	}
 	p.Gen = func(tier string, yield func(vlib.Case)) {
@@ -596,7 +606,14 @@ func C05Plan() *vlib.Plan {
 				for i, e := range hh {
 					names[i] = e.String()
 				}
-				yield(vlib.Case{ID: strings.Join(names, " "), Run: func() *vlib.Result { return c05Run(hh) }})
+				yield(vlib.Case{ID: strings.Join(names, " "), Run: func() *vlib.Result { return c05Run(hh, "percmd") }})
+				// the nil-fallback layout differs only where command C is involved
+				for _, e := range hh {
+					if e.cmd == cmdC {
+						yield(vlib.Case{ID: "nilhook: " + strings.Join(names, " "), Run: func() *vlib.Result { return c05Run(hh, "nilhook") }})
+						break
+					}
+				}
 			}
 			if len(h) == D {
 				return
